@@ -92,6 +92,12 @@ def wrapper_rules(prog, rep, rule="WRAP", parts=("state", "reads", "reaches", "a
                         ok = False
                         why = f"`{norm(r)[:80]}` does not return the storage's answer as it is"
                 rep.check(ok, rule, fi.short, "returns the storage's answer", "return <storage call>", f"{why}: what a reader gets is no longer what the storage holds (a cached, filtered or re-built value)", fi.loc())
+                # ... as it is: a local holding the answer is not written into before it is returned
+                for r in rets:
+                    if isinstance(r.value, ast.Name):
+                        nm = r.value.id
+                        edits = [n for n in walk_with_nested_exprs(fi.node) if (isinstance(n, (ast.Assign, ast.AugAssign)) and any(isinstance(t, ast.Subscript) and isinstance(t.value, ast.Name) and t.value.id == nm or (isinstance(t, ast.Attribute) and isinstance(t.value, ast.Name) and t.value.id == nm) for t in (n.targets if isinstance(n, ast.Assign) else [n.target]))) or (isinstance(n, ast.Call) and isinstance(n.func, ast.Attribute) and isinstance(n.func.value, ast.Name) and n.func.value.id == nm and n.func.attr in ("update", "setdefault", "pop", "popitem", "clear", "append", "extend", "insert", "remove", "sort", "reverse")) or (isinstance(n, ast.Delete) and any(isinstance(t, ast.Subscript) and isinstance(t.value, ast.Name) and t.value.id == nm for t in n.targets))]
+                        rep.check(not edits, rule, fi.short, f"`{nm}` returned as received", "not written into", (f"`{norm(edits[0])[:70]}` edits the storage's answer before handing it on: the description / listing a reader gets is no longer exactly what was stored (an extra key, a changed value), and it disagrees with what the other read paths return" if edits else ""), fi.loc(edits[0]) if edits else fi.loc())
         # ---- defaults of the read methods: asking for nothing in particular means "everything"
         if "reads" in parts:
             for mname in READS[cname]:
